@@ -18,6 +18,8 @@ SOLVENT_CATS = ('storage-label', 'factory-unit', 'storage-compare')
 
 def run(ctx):
     model = ctx.model
+    from . import unitspec as _us
+    _us.api_verified(ctx, 'C05.R1')
     fi = model.func('Container.create_solution')
     sc = scan_solver(ctx, 'Container.create_solution')
     n1 = uscan.report_sinks(ctx, lambda cat: 'C05.R1' if cat in ROW_CATS else 'C05.R2' if cat in SOLVENT_CATS else None, sc)
@@ -57,6 +59,12 @@ def run(ctx):
         ctx.ob('C05.R4', fi, s.lineno, 'the aliquot is taken from the solvent container given by the caller',
                isinstance(a0, Param) and a0.name == 'solvent', fact=f"source {show(c.args[0], 30)}",
                why='the solvent is taken from another container', key='solvent aliquot source', nontrivial=False)
+    # the aliquot is refused when the solvent container holds too little (the transfer's sufficiency gates), and in a
+    # recipe the solvent container is the current one
+    from .c03 import sufficiency
+    from .c08 import current_operands
+    sufficiency(ctx, 'C05.R3')
+    current_operands(ctx, 'C05.R4', only=('solution',))
     # the container built before the aliquot must not already contain the solvent entry
     ics = [s for s in walk_no_nested(fi.node) if isinstance(s, ast.Assign) and isinstance(s.targets[0], ast.Name)
            and s.targets[0].id == 'initial_contents']
